@@ -33,6 +33,26 @@ def fmtname (j : Json) : Except String Json := do
   pure (obj [("out", out), ("parsed", parsed), ("spec", spec),
              ("wellformed", Json.bool (Spec.wellformed fmt))])
 
-def handlers : List (String × (Json → Except String Json)) := [("fmtname", fmtname)]
+/-- the `format.name$` built-in on `names n fmt`; `nth` (optional) = the n-th name of the list as
+the generator built it: the reference is `Spec.formatName` on that name. -/
+def fmtnth (j : Json) : Except String Json := do
+  let names ← getStr j "names"
+  let n ← getInt j "n"
+  let fmt ← getStr j "fmt"
+  let out := match formatNth names n fmt with
+    | .error e => obj [("error", Json.str (errName e))]
+    | .ok .noSuchName => obj [("no_such_name", Json.bool true)]
+    | .ok (.formatted s rep) => obj [("str", strToJson s), ("too_many_commas", Json.bool rep)]
+  let spec := match getStr j "nth" with
+    | .error _ => Json.null
+    | .ok nth =>
+      match Spec.formatName nth fmt with
+      | .ok s => obj [("str", strToJson s)]
+      | .malformed => obj [("malformed", Json.bool true)]
+      | .tooDeep => obj [("too_deep", Json.bool true)]
+  pure (obj [("out", out), ("spec", spec), ("wellformed", Json.bool (Spec.wellformed fmt)),
+             ("count", nat (splitNameList names).length)])
+
+def handlers : List (String × (Json → Except String Json)) := [("fmtname", fmtname), ("fmtnth", fmtnth)]
 
 end Pybtex.Drv.C11
